@@ -11,17 +11,21 @@ package storecache
 // Every returned matcher must have exactly the requested name, type and value.
 
 import (
+	"context"
 	"fmt"
 	"math/rand"
 	"runtime"
+	"strconv"
 	"strings"
 	"sync"
 	"sync/atomic"
 	"testing"
 	"time"
 
+	"github.com/go-kit/log"
 	"github.com/prometheus/client_golang/prometheus"
 	"github.com/prometheus/prometheus/model/labels"
+	"github.com/prometheus/prometheus/storage"
 
 	"github.com/thanos-io/thanos/pkg/store/storepb"
 	"github.com/thanos-io/thanos/pkg/verifhook/vfkit"
@@ -238,5 +242,210 @@ func vfc13ConcurrentPart(t *testing.T, r *vfkit.Run, base, n int) {
 		if r.Signatures() < n/4 {
 			r.Inconclusive(fmt.Sprintf("concurrent matchers-cache part: only %d distinct interleaving signatures in %d rounds", r.Signatures(), n))
 		}
+	}
+}
+
+// ---- concurrent part for the index caches ----------------------------------------------------------
+//
+// RemoteIndexCache (over an in-process fake memcached whose GetMulti yields / sleeps by PRNG, so that
+// calls overlap) and InMemoryIndexCache are driven from 4..16 goroutines with Store*/Fetch* for postings,
+// expanded postings and series over overlapping item sets in different orders. Every stored value is
+// derived from the item, so every hit can be checked to carry exactly THAT item's data.
+
+type vfc13SlowMemcached struct {
+	vfc13FakeMemcached
+	rngMu    sync.Mutex
+	rng      *rand.Rand
+	inflight int64
+	overlap  int64
+	calls    int64
+}
+
+func (f *vfc13SlowMemcached) GetMulti(ctx context.Context, keys []string) map[string][]byte {
+	atomic.AddInt64(&f.calls, 1)
+	if atomic.AddInt64(&f.inflight, 1) > 1 {
+		atomic.AddInt64(&f.overlap, 1)
+	}
+	defer atomic.AddInt64(&f.inflight, -1)
+	f.rngMu.Lock()
+	yields, us := f.rng.Intn(4), f.rng.Intn(120)
+	f.rngMu.Unlock()
+	// the round trip takes a while; perturbation only
+	for i := 0; i < yields; i++ {
+		runtime.Gosched()
+	}
+	if us > 20 {
+		time.Sleep(time.Duration(us) * time.Microsecond)
+	}
+	return f.vfc13FakeMemcached.GetMulti(ctx, keys)
+}
+
+func vfc13PostingsData(block int, l labels.Label) []byte {
+	return []byte("postings-of|" + strconv.Itoa(block) + "|" + strconv.Quote(l.Name) + "|" + strconv.Quote(l.Value))
+}
+func vfc13ExpandedData(block int, ms []vfc13M) []byte {
+	return []byte(fmt.Sprintf("expanded-of|%d|%v", block, ms))
+}
+func vfc13SeriesData(block int, ref storage.SeriesRef) []byte {
+	return []byte(fmt.Sprintf("series-of|%d|%d", block, ref))
+}
+
+func vfc13IndexRound(t *testing.T, r *vfkit.Run, c int) (overlap, calls, hits int64) {
+	rng := r.Rand(c)
+	mode := vfkit.Pick(rng, []string{"remote", "remote", "remote", "inmemory"})
+	var cache IndexCache
+	var mc *vfc13SlowMemcached
+	if mode == "remote" {
+		mc = &vfc13SlowMemcached{vfc13FakeMemcached: vfc13FakeMemcached{m: map[string][]byte{}}, rng: r.RandS("memcached", c)}
+		rc, err := NewRemoteIndexCache(log.NewNopLogger(), mc, nil, prometheus.NewRegistry(), time.Hour)
+		if err != nil {
+			t.Fatalf("harness: %v", err)
+		}
+		cache = rc
+	} else {
+		im, err := NewInMemoryIndexCacheWithConfig(log.NewNopLogger(), nil, prometheus.NewRegistry(), InMemoryIndexCacheConfig{MaxSize: 1 << 22, MaxItemSize: 1 << 16})
+		if err != nil {
+			t.Fatalf("harness: %v", err)
+		}
+		cache = im
+	}
+	// item universe of the round: overlapping names/values
+	names := vfkit.Perm(rng, vfc13cNames)[:2+rng.Intn(3)]
+	values := vfkit.Perm(rng, vfc13cValues)[:2+rng.Intn(4)]
+	var lbls []labels.Label
+	for _, n := range names {
+		for _, v := range values {
+			lbls = append(lbls, labels.Label{Name: n, Value: v})
+		}
+	}
+	var mlists [][]vfc13M
+	for i := 0; i < 6; i++ {
+		g, _ := vfc13cGroup(rng)
+		mlists = append(mlists, g[:1+rng.Intn(len(g))])
+	}
+	refs := make([]storage.SeriesRef, 12+rng.Intn(20))
+	for i := range refs {
+		refs[i] = storage.SeriesRef(16 * (1 + rng.Intn(200)))
+	}
+	goroutines := 4 + rng.Intn(13)
+	perG := 6 + rng.Intn(10)
+	runtime.GOMAXPROCS([]int{1, 2, 4, 16}[c%4])
+	witness := map[string]any{"cache": mode, "goroutines": goroutines, "ops_per_goroutine": perG, "labels": fmt.Sprint(lbls), "gomaxprocs": []int{1, 2, 4, 16}[c%4]}
+	ctx := context.Background()
+	// everything is stored once up front as well, so that fetches hit from the first moment
+	for b := 0; b < 2; b++ {
+		for _, l := range lbls {
+			cache.StorePostings(vfc13Blocks[b], l, vfc13PostingsData(b, l), "t")
+		}
+		for _, ms := range mlists {
+			cache.StoreExpandedPostings(vfc13Blocks[b], vfc13PromMatchers(ms), vfc13ExpandedData(b, ms), "t")
+		}
+		for _, ref := range refs {
+			cache.StoreSeries(vfc13Blocks[b], ref, vfc13SeriesData(b, ref), "t")
+		}
+	}
+	var (
+		mu       sync.Mutex
+		violated bool
+		nhits    int64
+		wg       sync.WaitGroup
+		start    = make(chan struct{})
+	)
+	report := func(kind, what string, extra map[string]any) {
+		mu.Lock()
+		defer mu.Unlock()
+		if violated {
+			return
+		}
+		violated = true
+		w := map[string]any{}
+		for k, v := range witness {
+			w[k] = v
+		}
+		for k, v := range extra {
+			w[k] = v
+		}
+		r.Violation(c, "index-cache:concurrent:hit-with-other-items-data:"+kind+":"+mode, fmt.Sprintf("%d goroutines on one %s index cache: %s", goroutines, mode, what), w)
+	}
+	for g := 0; g < goroutines; g++ {
+		wg.Add(1)
+		grng := r.RandS(fmt.Sprintf("ig%d", g), c)
+		go func() {
+			defer wg.Done()
+			<-start
+			for i := 0; i < perG; i++ {
+				b := grng.Intn(2)
+				r.Eval(1)
+				switch grng.Intn(6) {
+				case 0:
+					l := lbls[grng.Intn(len(lbls))]
+					cache.StorePostings(vfc13Blocks[b], l, vfc13PostingsData(b, l), "t")
+				case 1, 2, 3:
+					sub := vfkit.Perm(grng, lbls)[:1+grng.Intn(len(lbls))]
+					h, _ := cache.FetchMultiPostings(ctx, vfc13Blocks[b], sub, "t")
+					for l, v := range h {
+						atomic.AddInt64(&nhits, 1)
+						if string(v) != string(vfc13PostingsData(b, l)) {
+							report("postings", fmt.Sprintf("FetchMultiPostings answered label {%q=%q} of block#%d with %q", l.Name, l.Value, b, v), map[string]any{"requested_labels_in_order": fmt.Sprint(sub), "label": fmt.Sprint(l), "returned": string(v), "expected": string(vfc13PostingsData(b, l))})
+						}
+					}
+				case 4:
+					ms := mlists[grng.Intn(len(mlists))]
+					if grng.Intn(3) == 0 {
+						cache.StoreExpandedPostings(vfc13Blocks[b], vfc13PromMatchers(ms), vfc13ExpandedData(b, ms), "t")
+					}
+					if v, ok := cache.FetchExpandedPostings(ctx, vfc13Blocks[b], vfc13PromMatchers(ms), "t"); ok {
+						atomic.AddInt64(&nhits, 1)
+						if string(v) != string(vfc13ExpandedData(b, ms)) {
+							report("expanded-postings", fmt.Sprintf("FetchExpandedPostings(%v) of block#%d answered with %q", ms, b, v), map[string]any{"matchers": ms, "returned": string(v)})
+						}
+					}
+				default:
+					sub := vfkit.Perm(grng, refs)[:1+grng.Intn(len(refs))]
+					h, _ := cache.FetchMultiSeries(ctx, vfc13Blocks[b], sub, "t")
+					for ref, v := range h {
+						atomic.AddInt64(&nhits, 1)
+						if string(v) != string(vfc13SeriesData(b, ref)) {
+							report("series", fmt.Sprintf("FetchMultiSeries answered ref %d of block#%d with %q", ref, b, v), map[string]any{"ref": ref, "returned": string(v)})
+						}
+					}
+				}
+			}
+		}()
+	}
+	close(start)
+	wg.Wait()
+	if mc != nil {
+		overlap, calls = atomic.LoadInt64(&mc.overlap), atomic.LoadInt64(&mc.calls)
+	}
+	if overlap > 0 || mode == "inmemory" {
+		r.Distinct(fmt.Sprintf("idx|%s|%d|%d|%v|%v", mode, goroutines, perG, lbls, refs))
+	}
+	r.Signature(fmt.Sprintf("idx|%s|%d|%d|%d", mode, goroutines, overlap, calls))
+	return overlap, calls, atomic.LoadInt64(&nhits)
+}
+
+// vfc13ConcurrentIndexPart runs n rounds as cases base..base+n-1.
+func vfc13ConcurrentIndexPart(t *testing.T, r *vfkit.Run, base, n int) {
+	defer runtime.GOMAXPROCS(runtime.GOMAXPROCS(0))
+	var overlap, calls, hits int64
+	ran := 0
+	for i := 0; i < n; i++ {
+		c := base + i
+		if !r.Want(c) {
+			continue
+		}
+		ran++
+		r.Guard(c, "index-cache:concurrent", map[string]any{"round": i}, func() {
+			o, cl, h := vfc13IndexRound(t, r, c)
+			overlap, calls, hits = overlap+o, calls+cl, hits+h
+		})
+	}
+	r.Count("concurrent-index:rounds", ran)
+	r.Count("concurrent-index:memcached_getmulti_calls", int(calls))
+	r.Count("concurrent-index:memcached_getmulti_calls_overlapping_another", int(overlap))
+	r.Count("concurrent-index:hits_checked_for_provenance", int(hits))
+	if !r.Replaying() && (overlap < int64(2*n) || hits < int64(20*n)) {
+		r.Inconclusive(fmt.Sprintf("concurrent index-cache part: only %d overlapping memcached round trips and %d checked hits in %d rounds", overlap, hits, n))
 	}
 }
